@@ -864,7 +864,7 @@ func genC09(g *Gen) {
 	// ---- random reader histories ----
 	alpha := []int{0, 1, 2, 3, 7, 100, 1000, B - 1, B, B + 1, 2 * B, 2*B + 1, 10000, 20000}
 	small := []int{0, 1, 2, 3, 5, 8, 13, 40}
-	for i := 0; i < g.Scale(600, 8000); i++ {
+	for i := 0; i < g.Scale(600, 3000); i++ {
 		bytesKind := i%3 == 0
 		tiny := i%4 == 1
 		var dl int
@@ -873,7 +873,7 @@ func genC09(g *Gen) {
 		} else {
 			dl = []int{100, B, B + 100, 3 * B, 10 * B}[g.R.Intn(5)] + g.R.Intn(50)
 		}
-		nops := 2 + g.R.Intn(g.Scale(14, 60))
+		nops := 2 + g.R.Intn(g.Scale(14, 30))
 		if tiny {
 			nops = 1 + g.R.Intn(5)
 		}
@@ -963,7 +963,7 @@ func genC09(g *Gen) {
 	g.Add("bw/dir", Ls(I(3), Ls(I(1), PatV(1, 0), PatV(2, 0), PatV(3, 0)), Ls(wm(5), fill(0, 0, 4, 5), wb(5, 4100, 0), fl, fl, wm(1), fill(1, 0, 1, 1), fl)))
 	g.Add("bw/dir", Ls(I(3), Ls(I(1), PatV(1, 0), PatV(2, 0), PatV(3, 0)), Ls(fl, wl)))
 	wsz := []int{0, 1, 3, 100, 1000, B - 1, B, B + 1, 10000, 30000}
-	for i := 0; i < g.Scale(450, 7000); i++ {
+	for i := 0; i < g.Scale(450, 2500); i++ {
 		tiny := (i/2)%2 == 1
 		kind := 2 + i%2
 		var params V
@@ -984,7 +984,7 @@ func genC09(g *Gen) {
 				params = Ls(I(1), PatV(1, 0), PatV(2, 0), PatV(3, 0))
 			}
 		}
-		nops := 2 + g.R.Intn(g.Scale(12, 50))
+		nops := 2 + g.R.Intn(g.Scale(12, 25))
 		if tiny {
 			nops = 1 + g.R.Intn(4)
 		}
@@ -1049,7 +1049,7 @@ func genC09(g *Gen) {
 		g.Add(cls, Ls(I(kind), params, ops))
 	}
 	// ---- ReaderSkipDecoder ----
-	for i := 0; i < g.Scale(350, 6000); i++ {
+	for i := 0; i < g.Scale(350, 2000); i++ {
 		tiny := i%3 == 1
 		mk := func() (V, VL) {
 			var parts VL = VL{I(1)}
